@@ -3,6 +3,7 @@ import ShroudVerif.Gen.AttrTables
 import Driver.Decl
 /-!
 `vattrs fcn|var <patterns> <decl>`: attribute validation of one function / variable.
+`vattrs fcng <patterns> <decl> <ngen> ( <ndecls> decl{ndecls} ){ngen}`: a function with `fortran_generic` entries.
 
   decl := D <ptrs|-> <arr> <const> <hastm> <tmName> <tmBase> <tmSgroup> <fptr> <init> <ntargs> <targtm>
             <name|~> <nattrs> <nparams|-1> attr{nattrs} decl{nparams}
@@ -79,16 +80,40 @@ def serNorm (n : Norm) : String :=
     ++ (match n.deref with | some s => String.ofList s | none => "~") ++ ","
     ++ (match n.rank with | some r => toString r | none => "~")
 
+/-- `<ngen> ( <ndecls> decl{ndecls} ){ngen}` -/
+def decGenerics : Nat → Nat → List String → Option (List (List ADecl))
+  | 0, _, _ => none
+  | _, 0, _ => some []
+  | f+1, k+1, n :: r =>
+    match decADecls (r.length + 2) n.toNat! r with
+    | some (g, r1) =>
+      match decGenerics f k r1 with
+      | some gs => some (g :: gs)
+      | none => none
+    | none => none
+  | _, _, [] => none
+
 def handleVattrs (args : List String) : String :=
   match args.filter (· ≠ "") with
   | kind :: pats :: rest =>
     match decADecl (rest.length + 2) rest with
-    | some (d, _) =>
+    | some (d, rest') =>
       if kind == "var" then
         match checkVar tables d with
         | .ok _ => "ok"
         | .reject i => "reject " ++ i
         | .crash e => "crash " ++ e
+      else if kind == "fcng" then
+        match rest' with
+        | ng :: r =>
+          match decGenerics (ng.toNat! + 1) ng.toNat! r with
+          | some gens =>
+            match checkFcnG tables (decStrs pats) gens d with
+            | .ok ns => "ok " ++ ";".intercalate (ns.map serNorm)
+            | .reject i => "reject " ++ i
+            | .crash e => "crash " ++ e
+          | none => "bad-generics"
+        | [] => "bad-generics"
       else
         match checkFcn tables (decStrs pats) d with
         | .ok ns => "ok " ++ ";".intercalate (ns.map serNorm)
